@@ -343,13 +343,22 @@ def ensure_vmodel(name):
 
 # ------------------------------------------------------------------ running drivers
 
+def _answers(text):
+    """vdriver marks its answer lines with '@@' (the library logs to stdout too); the extracted
+    models print answers only"""
+    ls = text.split('\n')
+    if ls and ls[-1] == '':
+        ls.pop()
+    if any(l.startswith('@@') for l in ls):
+        return [l[2:] for l in ls if l.startswith('@@')]
+    return ls
+
+
 def run_lines(exe, lines, timeout=3000, env=None):
     """feed lines to a driver, return list of output lines (same length) or raise"""
     data = ('\n'.join(lines) + '\n').encode()
     p = subprocess.run([exe], input=data, stdout=subprocess.PIPE, stderr=subprocess.PIPE, timeout=timeout, env=env)
-    out = p.stdout.decode('utf-8', 'replace').split('\n')
-    if out and out[-1] == '':
-        out.pop()
+    out = _answers(p.stdout.decode('utf-8', 'replace'))
     return p.returncode, out, p.stderr.decode('utf-8', 'replace')
 
 
@@ -384,9 +393,7 @@ def run_lines_sharded(exe, lines, shards=NCPU, timeout=3000, env=None):
     base = 0
     for i, ch in enumerate(chunks):
         rc, o, e = results[i]
-        ol = o.split('\n')
-        if ol and ol[-1] == '':
-            ol.pop()
+        ol = _answers(o)
         if len(ol) < len(ch) or rc != 0:
             crashes.append((base + len(ol), rc, e[-2000:]))
             ol = ol + ['CRASH rc=%s' % rc] * (len(ch) - len(ol))
